@@ -35,8 +35,13 @@ type vGetScenario struct {
 	RSeed   int64    `json:"rseed"`
 }
 
+type vGetRel struct {
+	k                   string
+	cut, extra, flipAt int
+}
+
 type vGetReq struct {
-	release chan string
+	release chan vGetRel
 }
 
 type vGetGate struct {
@@ -141,11 +146,20 @@ func (g *vGetGate) Do(req *http.Request) (*http.Response, error) {
 	if closed {
 		return nil, errors.New("verif: scenario over")
 	}
-	r := &vGetReq{release: make(chan string, 1)}
+	r := &vGetReq{release: make(chan vGetRel, 1)}
 	g.arrivals <- r
-	k := <-r.release
+	rel := <-r.release
+	return g.serve(req, rel.k, rel.cut, rel.extra, rel.flipAt)
+}
+
+// draw picks the concrete shape of an answer of kind k and says whether the answer is ambiguous:
+// a careful client could extract the right bytes from it although it is not a plain good answer
+// (a 200 without any length for a locator without size hint; Content-Length = block size followed
+// by surplus bytes, which cannot exist on a real wire).  Ambiguous answers may end either way.
+func (g *vGetGate) draw(k string, hint bool) (vGetRel, bool) {
 	L := len(g.data)
 	g.mu.Lock()
+	defer g.mu.Unlock()
 	cut, extra, flipAt := 1+g.rng.Intn(L-1+1)%L, 1+g.rng.Intn(9), g.rng.Intn(L*8)
 	if g.rng.Intn(4) == 0 {
 		cut = L // zero-length answer
@@ -153,8 +167,8 @@ func (g *vGetGate) Do(req *http.Request) (*http.Response, error) {
 	if cut < 1 {
 		cut = 1
 	}
-	g.mu.Unlock()
-	return g.serve(req, k, cut, extra, flipAt)
+	amb := (k == "chunked_ok" && !hint) || (k == "cl_long" && flipAt%3 != 0)
+	return vGetRel{k, cut, extra, flipAt}, amb
 }
 
 func vRunGetScenario(scn vGetScenario) []map[string]interface{} {
@@ -235,12 +249,13 @@ func vRunGetScenario(scn vGetScenario) []map[string]interface{} {
 			}
 			p := make([]byte, 1+variant%(L+9))
 			n, err := kc.ReadAt(loc, p, off)
-			ok = err == nil
+			want := data[off:]
+			if len(want) > len(p) {
+				want = want[:len(p)]
+			}
+			// io.ReaderAt allows (n < len(p), io.EOF) at the end of the data: a successful short read
+			ok = err == nil || (err == io.EOF && n == len(want) && n < len(p))
 			if ok {
-				want := data[off:]
-				if len(want) > len(p) {
-					want = want[:len(p)]
-				}
 				match = bytes.Equal(p[:n], want)
 			}
 		case "file":
@@ -273,8 +288,9 @@ func vRunGetScenario(scn vGetScenario) []map[string]interface{} {
 					select {
 					case rq := <-g.arrivals:
 						k := nextKindLocked()
-						g.log(map[string]interface{}{"ev": "resp", "k": k})
-						rq.release <- k
+						rel, amb := g.draw(k, scn.Hint)
+						g.log(map[string]interface{}{"ev": "resp", "k": k, "amb": amb})
+						rq.release <- rel
 					case <-stop:
 						return
 					}
@@ -330,8 +346,9 @@ func vRunGetScenario(scn vGetScenario) []map[string]interface{} {
 				for len(g.consumed) > 0 {
 					<-g.consumed
 				}
-				g.log(map[string]interface{}{"ev": "resp", "k": k})
-				rq.release <- k
+				rel, amb := g.draw(k, scn.Hint)
+				g.log(map[string]interface{}{"ev": "resp", "k": k, "amb": amb})
+				rq.release <- rel
 				if k != "connerr" {
 					select {
 					case <-g.consumed:
